@@ -222,6 +222,33 @@ fn run(ctx: &mut Ctx) {
     }
     large_family(ctx);
     mid_family(ctx);
+    // degrees beyond 2^62 (as long as every m = r * v is representable): codes that are compared by subtraction
+    // or through a signed type go wrong when two degrees are 2^63 apart
+    {
+        let wide: Vec<usize> = vec![1, 3, 1 << 62, 1 << 63, (1 << 63) + 3, usize::MAX];
+        for dim in 2..=3usize {
+            for n in 1..=tier.pick(2usize, 3usize) {
+                for_each_labeled_set(dim, n, true, &mut |ops| {
+                    if !ops_connected(ops) {
+                        return;
+                    }
+                    let plain = RS::from_ops(ops.clone());
+                    for_each_branching(ops, &wide, 2, &mut |s| {
+                        let representable = (0..s.dim()).all(|i| (0..s.n).all(|d| plain.r(i, i + 1, d).checked_mul(s.v[i][d]).is_some()));
+                        let huge = s.v.iter().any(|r| r.iter().any(|&x| x > 3));
+                        if representable && huge && ctx.take() {
+                            let first = s.clone();
+                            for p in perms(s.n) {
+                                let t = s.relabel(&p);
+                                check_one(ctx, &t, Some(&first), "huge-degree");
+                            }
+                            ctx.add("huge_degree_symbols", 1);
+                        }
+                    });
+                });
+            }
+        }
+    }
 }
 
 fn replay(ctx: &mut Ctx, case: &Value) {
